@@ -162,7 +162,7 @@ steps — for every event constructor; an uplink datagram must not be processed 
 stamp's "never" sentinel). -/
 theorem evSteps_sound (s : Sys F) (e : Ev) (j : Nat) (l l' : FLink F)
     (hl : s.links[j]? = some l) (hl' : (step s e).1.links[j]? = some l')
-    (hclk : ∀ now cid data, e = .uplink now cid data → 0 < now) :
+    (hclk : ∀ now cid data, e = .uplink now cid data → 0 < now) (hnr : e.isReload = false) :
     l'.toSLink = StallLatch.run l.toSLink (evSteps s e j) := by
   unfold evSteps
   rw [hl, hl']
@@ -200,11 +200,13 @@ theorem evSteps_sound (s : Sys F) (e : Ev) (j : Nat) (l l' : FLink F)
         rcases hk_guard s now j l l' hl hl' with h | h
         · exact .inl ⟨sameSix_of_same h.same, .inl h.proof⟩
         · exact .inr ⟨sameSix_of_torn h, h.proof⟩
+      | reload rnow raddrs routs => cases hnr
       | _ =>
-        have h := cfg_guard s _ rfl j l l' hl hl'
+        have h := cfg_guard s _ rfl rfl j l l' hl hl'
         exact .inl ⟨sameSix_of_same h.same, .inl h.proof⟩
     cases e with
     | client now pkt => exact absurd rfl (hne now pkt)
+    | reload rnow raddrs routs => cases hnr
     | _ => exact hgoal
 
 /-- The contribution of a routed client datagram, spelled out. -/
@@ -239,19 +241,19 @@ theorem runSteps_snoc (s : Sys F) (pre : List Ev) (e : Ev) (j : Nat) :
 
 /-- **A shell run, seen from link `j`, is a history of the alphabet.** -/
 theorem runSteps_sound (s : Sys F) (evs : List Ev) (j : Nat) (l : FLink F) (hl : s.links[j]? = some l)
-    (hclk : ∀ e ∈ evs, ∀ now cid data, e = .uplink now cid data → 0 < now) :
+    (hclk : ∀ e ∈ evs, ∀ now cid data, e = .uplink now cid data → 0 < now) (hnr : NoReload evs) :
     ∃ lf, (Sys.run s evs).1.links[j]? = some lf ∧
       lf.toSLink = StallLatch.run l.toSLink (runSteps s evs j) := by
   induction evs generalizing s l with
   | nil => exact ⟨l, hl, rfl⟩
   | cons e evs ih =>
-    have hlen : (step s e).1.links.length = s.links.length := (Hk.step_link s e).2.1
+    have hlen : (step s e).1.links.length = s.links.length := (Hk.step_link s e hnr.head).2.1
     have hj : j < (step s e).1.links.length := by
       rw [hlen]; exact (List.getElem?_eq_some_iff.1 hl).1
     have hl' : (step s e).1.links[j]? = some (step s e).1.links[j] := List.getElem?_eq_getElem hj
-    obtain ⟨lf, h1, h2⟩ := ih (step s e).1 _ hl' (fun x hx => hclk x (List.mem_cons_of_mem _ hx))
+    obtain ⟨lf, h1, h2⟩ := ih (step s e).1 _ hl' (fun x hx => hclk x (List.mem_cons_of_mem _ hx)) hnr.tail
     refine ⟨lf, h1, ?_⟩
-    rw [h2, evSteps_sound s e j l _ hl hl' (hclk e List.mem_cons_self)]
+    rw [h2, evSteps_sound s e j l _ hl hl' (hclk e List.mem_cons_self) hnr.head]
     show _ = StallLatch.run l.toSLink (evSteps s e j ++ runSteps (step s e).1 evs j)
     rw [StallLatch.run_append]
 
